@@ -121,7 +121,7 @@ fn stmt(s: &Stmt) -> Value {
 
 fn item_brief(i: &Item) -> Value {
     match i {
-        Item::Fn(f) => json!({"k":"Fn","name":f.sig.ident.to_string(),"body":block(&f.block)}),
+        Item::Fn(f) => json!({"k":"Fn","name":f.sig.ident.to_string(),"sig":fn_sig(&f.sig),"body":block(&f.block)}),
         Item::Const(c) => json!({"k":"Const","name":c.ident.to_string(),"ty":ts(&c.ty),"init":expr(&c.expr)}),
         Item::Static(c) => json!({"k":"Static","name":c.ident.to_string(),"ty":ts(&c.ty),"init":expr(&c.expr)}),
         Item::Use(u) => json!({"k":"Use","text":ts(u)}),
